@@ -81,7 +81,7 @@ def enlargeUnitCell {α Q : Type} (m : GMPO α Q) (num : Int) (den : Nat) : Exce
 /-- python `i % L` -/
 def pmod (i : Int) (L : Nat) : Nat := (i.emod (L : Int)).toNat
 
-def extractSegment {α Q : Type} (m : GMPO α Q) (first last : Int) : Except Err (GMPO α Q) :=
+def extractSegment {α Q : Type} [DecidableEq Q] (m : GMPO α Q) (first last : Int) : Except Err (GMPO α Q) :=
   let L := m.L
   if m.ucw = 0 then .error .zeroDiv else
   let spr := L / m.ucw                       -- sites_per_ring
@@ -92,6 +92,10 @@ def extractSegment {α Q : Type} (m : GMPO α Q) (first last : Int) : Except Err
   let idx : List Int := (List.range len.toNat).map (fun (d : Nat) => first + (d : Int))
   -- `get_W(i)`: a finite MPO accepts `-L ≤ i < L` only
   if m.isFinite && idx.any (fun i => i < -(L : Int) || (L : Int) ≤ i) then .error .value else
+  -- `MPO.test_sanity` of the new MPO: consecutive `W` must have contractible legs (fails when a finite MPO is
+  -- wrapped around with negative indices and the outer legs differ)
+  if !(idx.zip (idx.drop 1)).all (fun ii => decide (m.legs.getD (pmod ii.1 L + 1) [] = m.legs.getD (pmod ii.2 L) []))
+  then .error .value else
   let newUcw := (len / (spr : Int)).toNat
   .ok { m with
     bc := .segment
